@@ -527,7 +527,7 @@ void World::run(const Plan &p, const std::string &d) {
     clock_set(s.t0); clock_enable(true); sim_start = s.t0;
     entropy_seed(s.entropy);
     pid_set(4000 + (int) ((s.entropy >> 9) % 3));
-    threaded_run = ((s.entropy >> 20) % 5) == 0;
+    threaded_run = ((s.entropy >> 20) % 5) == 0 && !getenv("NIXSIM_NO_THREADS");
     via_symlink = ((s.entropy >> 28) % 5) == 0;
     twin_safe = plan_is_twin(plan);
     blind = twin_safe && g_blind_twin;
@@ -697,7 +697,7 @@ int World::exec_session(const Op &op) {
             cnt.inc("restart.snapshot");
         } else cnt.inc("restart.same_path");
         arg_class = std::string(m ? "RO" : "RW") + (via ? ",snapshot" : ",same-path");
-        if ((((unsigned) op.a[3]) % (lane_prop == "C02" ? 3u : 8u)) == 0) {
+        if ((((unsigned) op.a[3]) % (lane_prop == "C02" ? 3u : 8u)) == 0 && !getenv("NIXSIM_NO_XPROC")) {
             // C02 "in the same or in another process": before this process reopens the file a separate process reads it
             std::string out, want = render(before) + "HASH " + hex64(node_hash(before)) + "\n";
             bool rw = (op.a[3] / 8) % 4 == 0;
